@@ -321,6 +321,18 @@ func c14(r *hx.Run) {
 		if base.err != nil || len(base.ops) != fs.count {
 			panic(fmt.Sprintf("baseline %s does not read back: %v", fs.name, base.err))
 		}
+		// a reader whose protocol names a compression algorithm the registry does not know must fail, not panic
+		for _, alg := range []string{"ZSTD-UNKNOWN", ""} {
+			caseID := fs.name + "|unknown-compression|" + alg
+			if r.Want(caseID) {
+				pp := p
+				pp.CompressionAlgorithm = alg
+				if res := c14Read(r, caseID, pp, cas, anchor, nil); res.err == nil {
+					r.Violation("accepts:unknown-compression-algorithm", caseID, "file set read although the protocol's compression algorithm is not registered", nil)
+				}
+				r.Nontrivial(caseID)
+			}
+		}
 		var suffixes []string
 		for _, op := range base.ops {
 			suffixes = append(suffixes, op.UniqueSuffix)
